@@ -246,7 +246,9 @@ B.SPEC_FUNCS['ST_ENTRY_OUT'] = lambda it, args, kwargs: args[0] is it.ctx.ghost[
 ST_RESET = ['forall(lambda s_k: s_k not in self._out)', 'len(self._symsOrder) == 0',
             'forall(lambda s_k: s_k not in self._postponedSyms)', 'forall(lambda s_k: s_k not in self._parentOids)',
             'forall(lambda s_k: s_k not in self._rows)', 'forall(lambda s_k: s_k not in self._cols)',
-            'self._moduleRevision is None', 'not ST_ENTRY_OUT(self._out)']
+            'self._moduleRevision is None', 'not ST_ENTRY_OUT(self._out)',
+            # C12: the numbering of fake index columns starts afresh for every module
+            'self.fakeidx == 1000']
 
 CONTRACTS += [
     Contract(id='symtable.prepData', file=FILE, func='SymtableCodeGen.prepData', serves=['C03'], trusted=True,
@@ -258,11 +260,14 @@ CONTRACTS += [
              setup=_st_gencode_setup,
              requires=['implies(ast[3] is not None, forall(ast[3], lambda d: not truthy(d) or (is_tuple(d) and len(d) >= 1 and is_str(d[0]))))',
                        # value type of importPart (grammar contract): None or module name -> list of symbol names
-                       'ast[2] is None or (is_dict(ast[2]) and forall(ast[2], lambda k, v: is_list(v) and forall(seq(v), lambda s: is_str(s))))'],
+                       'ast[2] is None or (is_dict(ast[2]) and "class" not in ast[2] and forall(ast[2], lambda k, v: is_list(v) and forall(seq(v), lambda s: is_str(s))))'],
              loops={
                  1: {'assigns': ST_PER_MODULE,
                      'invariant': ['implies(_i == 0, %s)' % r for r in ST_RESET] + ['self.moduleName[0] == ast[0]']},
-                 2: {'invariant': ['forall(_done, lambda s: s in self._out or s in self._importMap)']},
+                 # C12: the parents are checked in a specified (sorted) order, so that the error names the same missing
+                 # parent whatever the hash seed
+                 2: {'iter': '_par', 'invariant': ['forall(_par, lambda j, s: implies(j < _i, s in self._out or s in self._importMap))',
+                                                   'forall(self._parentOids, lambda s: s in members(_par))']},
              },
              ensures={
                  'a_postponed_symbol_is_an_error': 'implies(truthy(self._postponedSyms), raised)',
